@@ -66,6 +66,9 @@ pub struct TJob {
     /// phantoms (handed to the callers, never indexed).
     #[serde(default)]
     pub reject_fetched: bool,
+    /// Keys 4 and 8 have the same 64-bit hash (the user-supplied hasher maps 8 to 4's hash).
+    #[serde(default)]
+    pub collide: bool,
 }
 
 #[derive(Debug, Clone)]
@@ -424,7 +427,7 @@ fn execute(job: &TJob, ctx: Arc<Mutex<Ctx>>, on_deadlock: sched::DeadlockHandler
         let cache: TC = CacheBuilder::new(job.capacity)
             .with_shards(job.shards)
             .with_eviction_config(eviction_config(&job.algo))
-            .with_hash_builder(VHash::default())
+            .with_hash_builder(if job.collide { VHash { table: Arc::new(vec![0, 1, 2, 3, 4, 5, 6, 7, 4]) } } else { VHash::default() })
             .with_weighter({
                 let z = job.zero_weight_key;
                 move |k: &u64, _: &u64| usize::from(Some(*k) != z)
@@ -687,6 +690,7 @@ fn jobs_c11(tier: Tier) -> Vec<TJob> {
                     zero_weight_key: None,
                     atomic_points: false,
                     reject_fetched: false,
+                collide: false,
                 });
             }
             // the fetched value is rejected by the admission filter (a phantom record): it must neither
@@ -701,6 +705,7 @@ fn jobs_c11(tier: Tier) -> Vec<TJob> {
                 zero_weight_key: None,
                 atomic_points: false,
                 reject_fetched: true,
+                collide: false,
             });
         }
     }
@@ -742,6 +747,7 @@ fn jobs_c13(tier: Tier) -> Vec<TJob> {
                 zero_weight_key: None,
                 atomic_points: false,
                 reject_fetched: false,
+                collide: false,
             });
         }
     }
@@ -789,6 +795,7 @@ fn jobs_c18(tier: Tier) -> Vec<TJob> {
                 zero_weight_key: None,
                 atomic_points: false,
                 reject_fetched: false,
+                collide: false,
             });
             // the same two-thread programs with every atomic operation on a record's reference count and
             // flags as an additional scheduling point (handle clone / drop / is_outdated run outside the locks)
@@ -803,6 +810,7 @@ fn jobs_c18(tier: Tier) -> Vec<TJob> {
                     zero_weight_key: None,
                     atomic_points: true,
                     reject_fetched: false,
+                collide: false,
                 });
             }
         }
@@ -829,6 +837,7 @@ fn jobs_c16(tier: Tier) -> Vec<TJob> {
                 zero_weight_key: None,
                 atomic_points: false,
                 reject_fetched: false,
+                collide: false,
             });
         }
     }
@@ -1044,6 +1053,7 @@ fn jobs(tier: Tier) -> Vec<TJob> {
                     zero_weight_key: None,
                     atomic_points: false,
                 reject_fetched: false,
+                collide: false,
                     bound: match tier {
                         Tier::Quick => 2,
                         Tier::Thorough => {
@@ -1069,7 +1079,34 @@ fn jobs(tier: Tier) -> Vec<TJob> {
             if tier == Tier::Quick && threads.iter().map(|t| t.len()).sum::<usize>() > 2 {
                 continue;
             }
-            v.push(TJob { algo, shards: 1, capacity: 2, prologue: pro, threads, bound: 2, zero_weight_key: None, atomic_points: true, reject_fetched: false });
+            v.push(TJob { algo, shards: 1, capacity: 2, prologue: pro, threads, bound: 2, zero_weight_key: None, atomic_points: true, reject_fetched: false, collide: false });
+        }
+    }
+    // Keys 4 and 8 collide on the full 64-bit hash: all pairs of single operations in which the other key takes
+    // part, from the states "4 present" and "4 present and held".
+    let calgos: Vec<Algo> = if tier == Tier::Quick { vec![Algo::Fifo, Algo::Lru { ratio: 0.9 }] } else { Algo::defaults() };
+    for algo in calgos {
+        for (pro, threads) in programs(tier) {
+            let uses_b = threads.iter().flatten().any(|o| matches!(o, TOp::Ins { k: 8 }));
+            if !uses_b || threads.len() >= 3 || threads.iter().map(|t| t.len()).sum::<usize>() > 2 || pro.is_empty() {
+                continue;
+            }
+            // the other key is inserted, looked up and removed as well
+            for second in [TOp::Ins { k: 8 }, TOp::Rm { k: 8 }, TOp::Get { k: 8, hold: false }] {
+                let mut th = threads.clone();
+                for t in th.iter_mut() {
+                    for o in t.iter_mut() {
+                        if matches!(o, TOp::Ins { k: 8 }) {
+                            *o = second;
+                        }
+                    }
+                }
+                let mut pro2 = pro.clone();
+                if !matches!(second, TOp::Ins { .. }) {
+                    pro2.push(TOp::Ins { k: 8 });
+                }
+                v.push(TJob { algo, shards: 1, capacity: 4, prologue: pro2, threads: th, bound: 2, zero_weight_key: None, atomic_points: false, reject_fetched: false, collide: true });
+            }
         }
     }
     // Zero-weight entries of the contended key (usage does not tell whether a shard is empty): all pairs
@@ -1080,7 +1117,7 @@ fn jobs(tier: Tier) -> Vec<TJob> {
             if threads.len() >= 3 {
                 continue;
             }
-            v.push(TJob { algo, shards: 1, capacity: 2, prologue: pro, threads, bound: 2, zero_weight_key: Some(4), atomic_points: false, reject_fetched: false });
+            v.push(TJob { algo, shards: 1, capacity: 2, prologue: pro, threads, bound: 2, zero_weight_key: Some(4), atomic_points: false, reject_fetched: false, collide: false });
         }
     }
     v
